@@ -1,4 +1,5 @@
 """C16 — only agreement between label and prediction matters; documented-unused arguments are ignored."""
+import random
 import numpy as np
 import pandas as pd
 from . import coqgen as G
@@ -17,18 +18,114 @@ RULE = ("outcome sequences x label encodings (ints other than 0/1, strings, bool
         "the documented-unused arguments (X for concept-drift detectors; y_true / y_pred for change and data-drift detectors, including wrong shapes): "
         "each variant run must reproduce the canonical 0/1 run (direct oracle) and the model run on the agreement bits (correspondence). "
         "Non-trivial: the canonical trace contains a warning or drift; distinct by content."
-        " Also: the two labels in different containers (scalar vs list, list vs tuple, list vs nested list, array vs list); junk labels in set_reference of the batch detectors; LinearFourRates in regimes where decisions depend on the rates.")
+        " Also: the two labels in different containers (scalar vs list, list vs tuple, list vs nested list, array vs list); junk labels in set_reference of the batch detectors; LinearFourRates in regimes where decisions depend on the rates."
+        " Also (DDM / EDDM / STEPD / ADWINAccuracy): string class labels that are numeric look-alikes of each other (LOOKALIKES: labels differing only by trailing NUL characters 'a'/'a\\0', zero-padded codes '7'/'007' and '7'/'07'/'007', "
+        "'7'/'7.0', '7'/' 7'/'7 ', '1'/'1e0'/'1.', ''/'0', '0'/'-0'/'+0', 'nan'/'NaN', '1'/'0' for the classes 0/1) x containers of a str label (CONTAINERS: plain str, "
+        "np.str_, '<U' 0-d / 1-d arrays, one-element list, object-dtype 0-d / 1-d / 1x1 arrays, one-element pandas Series with the default (str) and with object dtype, "
+        "and the two labels in different ones: Series vs plain str, '<U' array vs object array): every base case runs every container, each with a look-alike labelling "
+        "that rotates with the base case, so the quick tier covers the whole product. The agreement bit of a pair is Python equality (==) of the caller's label VALUES "
+        "('7' and '007' are different labels); the harness asserts for every fed pair, of every encoding, that the value read back from the container is the label "
+        "itself and that its equality is the canonical agreement bit.")
 SHARD = 40
 
 ENC_NAMES = ["int01", "ints_5_9", "strings", "bools", "floats", "three_classes", "np0d", "np1d", "list1", "series1", "mixed_pairs",
              "strings_prefix", "int_vs_float", "mixed_types", "scalar_vs_list", "list_vs_tuple", "list_vs_nested", "array_vs_list"]
 JUNK = ["none", "scalar", "string", "vector", "matrix", "frame", "nan"]
 
+# ---- string labels that are numeric look-alikes of each other, and the containers a str label arrives in -------------------------
+# A labelling lists the labels of the classes (two: class c gets LOOKALIKES[..][c]; three: the scheme of "three_classes").  The labels
+# of one labelling are pairwise different *strings* that a numeric reading (int / float / pandas.to_numeric, strip, truthiness) would
+# identify, or - '' / 'nan' - would make unequal to themselves.  Only `==` of the label values may matter to the four detectors.
+LOOKALIKES = {
+    "zero_padded": ("7", "007"),
+    "zero_padded3": ("7", "07", "007"),
+    "int_float_str": ("7", "7.0"),
+    "blank_padded": ("7", " 7", "7 "),
+    "sci": ("1", "1e0", "1."),
+    "empty": ("", "0"),
+    "signed_zero": ("0", "-0", "+0"),
+    "nan_words": ("nan", "NaN"),
+    "swapped01": ("1", "0"),
+    # labels that differ only by trailing NUL characters: numpy's '<U' storage drops trailing NULs, and np.array(y) in _validate_y
+    # made them equal in every non-object container (plain str, list) - found with this generator, repaired in /repo by
+    # "fix: streaming label validation keeps string labels as given" (known_findings.json); generated so that a return is reported.
+    # The '<U' boxes cannot hold such a label (the self-check of the boxes would refuse them): relabel() skips those pairs.
+    "trailing_nul": ("a", "a\0"),
+    "trailing_nul3": ("a", "a\0", "a\0\0"),
+}
+# (The boxes below are also checked, per fed pair, to hand over the label unaltered: pd.array([b"7"], dtype="string"), for instance, would not.)
+
+# name -> (box for y_true, box for y_pred); every box holds exactly one str label
+_B = {
+    "str": lambda s: s,
+    "np_str": lambda s: np.str_(s),
+    "U0d": lambda s: np.array(s),
+    "U1d": lambda s: np.array([s]),
+    "list1": lambda s: [s],
+    "obj0d": lambda s: np.array(s, dtype=object),
+    "obj1d": lambda s: np.array([s], dtype=object),
+    "obj1x1": lambda s: np.array([[s]], dtype=object),
+    "series": lambda s: pd.Series([s]),                       # pandas 3: dtype str, numpy sees object
+    "series_obj": lambda s: pd.Series([s], dtype=object),
+}
+CONTAINERS = {n: (n, n) for n in _B}
+CONTAINERS["series_vs_str"] = ("series", "str")
+CONTAINERS["U1d_vs_obj1d"] = ("U1d", "obj1d")
+# boxes whose numpy storage cannot hold a label ending in NUL -> the box used instead for the trailing_nul labellings
+NUL_FALLBACK = {"np_str": "str", "U0d": "str", "U1d": "list1"}
+
+
+def lookalike_encs(k):
+    """the look-alike encodings of base case number k: every container, the labelling rotating with the container and with k
+    (consecutive base cases shift it, so len(LOOKALIKES) consecutive base cases cover the whole product)"""
+    labs = sorted(LOOKALIKES)
+    return [f"lk/{labs[(j + k) % len(labs)]}/{c}" for j, c in enumerate(sorted(CONTAINERS))]
+
+
+def relabel(labels, t, p, k):
+    """labels of sample k under a labelling with two or three classes; same agreement as (t, p)"""
+    if len(labels) == 2:
+        return labels[t], labels[p]
+    a = (k * 7 + 3) % 3
+    return labels[a], labels[a if t == p else (a + 1 + (k % 2)) % 3]
+
+
+def label_of(x):
+    """the Python value of the single label a caller's container holds (no conversion other than numpy's / pandas' own unboxing)"""
+    while True:
+        if isinstance(x, (pd.Series, pd.Index)):
+            x = x.tolist()
+        elif isinstance(x, np.ndarray):
+            x = x.tolist()          # Python objects; a 0-d array gives the scalar itself
+        if isinstance(x, (list, tuple)):
+            if len(x) != 1:
+                raise AssertionError(f"container with {len(x)} labels")
+            x = x[0]
+            continue
+        return x.item() if isinstance(x, np.generic) else x
+
+
+def agreement(a, b):
+    """the agreement bit of one fed pair: Python equality of the label values"""
+    return bool(label_of(a) == label_of(b))
+
+
 
 def encode(enc, t, p, k, rng_state):
     """t, p in {0,1}: canonical true / predicted label of sample k; returns the pair in the encoding"""
     if enc == "int01":
         return t, p
+    if enc.startswith("lk/"):
+        _, lab, con = enc.split("/")
+        lt, lp = relabel(LOOKALIKES[lab], t, p, k)
+        nt, npd = CONTAINERS[con]
+        if lab.startswith("trailing_nul"):
+            nt, npd = NUL_FALLBACK.get(nt, nt), NUL_FALLBACK.get(npd, npd)
+        a, b = _B[nt](lt), _B[npd](lp)
+        # the container must hand over the label itself (same type, same characters)
+        if type(label_of(a)) is not str or label_of(a) != lt or type(label_of(b)) is not str or label_of(b) != lp:
+            raise AssertionError(f"container {con!r} altered the label {lt!r} / {lp!r}: {label_of(a)!r} / {label_of(b)!r}")
+        return a, b
     if enc == "ints_5_9":
         m = {0: 5, 1: 9}; return m[t], m[p]
     if enc == "strings":
@@ -104,6 +201,11 @@ def gen_cases(ctx):
             encs = LFR_ENC if name == "LinearFourRates" else ENC_NAMES
             for enc in encs:
                 cases.append(dict(base, enc=enc, junk=ctx.rng.choice(JUNK)))
+            if name != "LinearFourRates":
+                # own generator: the draws of the cases above do not depend on how many look-alike encodings there are
+                r2 = random.Random(ctx.seed * 7919 + k)
+                for enc in lookalike_encs(k):
+                    cases.append(dict(base, enc=enc, junk=r2.choice(JUNK)))
     for name in UNUSED_Y:
         for _ in range(ctx.scale(1, 8)):
             k += 1
@@ -138,6 +240,9 @@ def run_variant(case, canonical):
                 a, b = lfr_encode(case["enc"], t), lfr_encode(case["enc"], p)
             else:
                 a, b = encode(case["enc"], t, p, i, None)
+                # the bit the canonical run stands for is `==` of the label VALUES the caller passes
+                if agreement(a, b) != (t == p):
+                    raise AssertionError(f"encoding {case['enc']!r} does not preserve agreement at sample {i}: {a!r} / {b!r} for {t} / {p}")
             det.update(a, b, jk) if case["junk"] != "none" else det.update(a, b)
         elif spec.kind == "batch":
             det.update(np.array(item, dtype=float), jk, junk(case["junk"], i + 1))
